@@ -282,7 +282,8 @@ class Gen:
                 return ["pget", rng.choice(pa)]
             if c < .85:
                 return self.ctxbytes()
-            return ["bytes", rng.choice([b"", b"a", b"abc", b"\x00\x01", b"\xff" * 8, b"hello world", bytes(range(20))]).hex()]
+            return ["bytes", rng.choice([b"", b"a", b"abc", b"\x00\x01", b"\xff" * 8, b"hello world", bytes(range(20)), "caf\u00e9".encode(), "\u03c0\u22483.14".encode(),
+                                         "na\u00efve \U0001f600".encode()]).hex()]
         if k < .5:
             return ["nary", "concat", [self.b(d - 1, sc) for _ in range(rng.choice([2, 2, 3]))]]
         if k < .58:
